@@ -161,9 +161,9 @@ var worldOracle = drv.Oracle{World: true, Typed: true, Filters: true, Lock: true
 
 func init() {
 	Registry["C01"] = func(t Tier) *Check {
-		d := 4
+		d := 5
 		if t == Thorough {
-			d = 5
+			d = 6
 		}
 		uPQ := []ct.Comp{ct.P, ct.Q, ct.T9}
 		uKinds := []ct.Comp{ct.S, ct.Z, ct.L, ct.T9}
@@ -174,7 +174,7 @@ func init() {
 			o := plainOpts{a: ct.P, b: ct.Q, c: ct.NumComps, path: path, maxAlive: 4, copyOp: true}
 			var cf []drv.Config
 			if path == model.PathMapN {
-				cf = append(cfgs([]int{1, 2, 8}, []int{0}, one, uPQ), cfgs([]int{1}, []int{62, 126, 190, 250}, one, uPQ)...)
+				cf = append(cfgs([]int{1, 8}, []int{0}, one, uPQ), cfgs([]int{2}, []int{62, 126, 190, 250}, one, uPQ)...)
 				if t == Thorough {
 					cf = cfgs([]int{1, 2, 8}, []int{0, 62, 126, 190, 250}, one, uPQ)
 				}
@@ -203,7 +203,7 @@ func init() {
 		scs = append(scs, &engine.Scenario{
 			Name: "C01-S6-graph", Cfgs: autoPad(cfgs([]int{1}, []int{0}, one, uPQ), 2, 1), Filters: plainFilters(ct.P, ct.Q), Slots: 1,
 			Oracle: func() drv.Oracle { o := worldOracle; o.Family = plainFamily(ct.P, ct.Q); return o }(),
-			Alphabet: graphAlphabet([]ct.Comp{ct.P, ct.Q, ct.T9}, 3), Depth: d + 1,
+			Alphabet: graphAlphabet([]ct.Comp{ct.P, ct.Q, ct.T9}, 3), Depth: d,
 		})
 		// S4 batch moves, S5 reset/shrink interleaved
 		ob := plainOpts{a: ct.P, b: ct.Q, c: ct.NumComps, path: model.PathMapN, maxAlive: 5, batch: true, shrink: true, reset: true}
